@@ -44,6 +44,15 @@ REQUIRED_THEOREMS = [
     "cr_identity_at_knots",
     "cc_identity_at_knots",
     "cr_is_natural_interpolant_partial",
+    "piece_derivatives_formal",
+    "piece_derivatives_analytic",
+    "cr_c1_iff_tridiagonal",
+    "cr_is_natural_interpolant",
+    "cc_c1_iff_tridiagonal",
+    "cc_is_periodic_interpolant",
+    "cr_linear_beyond_knots",
+    "cr_glued_pieces_C2_real",
+    "cc_glued_pieces_C2_real",
     "centered_columns_zero_mean",
     "centered_columns_zero_mean_nulls",
 ]
@@ -54,8 +63,10 @@ TRUSTED = [
     "numpy.linalg.qr (c.Q2 = 0, Q2 orthonormal)",
     "float rounding is not modelled: the model evaluates exactly in Rat on the implementation's (dyadic) floats; "
     "agreement is at 1e-9 relative to max(1,|value|)",
-    "that the natural/cyclic cubic regression spline with B.F = D is C1 (hence THE interpolating spline) is not "
-    "proved in Lean (DESIGN C12.5); it is checked on the implementation against scipy.interpolate.CubicSpline",
+    "the cubic-spline interpolation theorems (cr_is_natural_interpolant, cc_is_periodic_interpolant) assume the contract "
+    "B.F = D EXACTLY (AllZero (residualF ...)); on the implementation's floating-point F the same residual is computed exactly "
+    "by the model per case and required to be < 1e-8 (scaled), and the implementation is additionally compared with "
+    "scipy.interpolate.CubicSpline by the oracle",
     "numpy.searchsorted is modelled for ascending knot arrays (count of knots < x)",
 ]
 ASSUMPTIONS = [
@@ -846,13 +857,21 @@ LEVEL_TEXT = (
     "that a successful call with df=k has exactly k columns; what each of the five extrapolation modes returns (clip = row of the "
     "clipped value, na = null row, zero = zero row, raise = error iff a value is outside, extend = polynomial extension of the "
     "boundary piece, still summing to one) and that nulls stay null rows; for the cubic regression splines that the free design "
-    "matrix at knot k is the unit row e_k for ANY second-derivative map F (natural; cyclic with first and last knot identified), "
+    "matrix at knot k is the unit row e_k for ANY second-derivative map F (natural; cyclic with first and last knot identified); "
+    "that under the contract B.F = D (the matrices of _get_natural_f/_get_cyclic_f, exactly as the engine evaluates it) every column "
+    "of the free design matrix is, on each closed knot interval, the cubic piece computed by the model, that these pieces interpolate "
+    "the unit vector, have equal second derivatives at shared knots and equal FIRST derivatives at every interior knot (every node of "
+    "the circle for cc) - first-derivative continuity at a knot being EQUIVALENT to that knot's tridiagonal equation for any F -, that "
+    "the second derivative vanishes at the boundary knots and the column continues as the tangent line outside the knots (natural "
+    "spline, extrapolation='extend'); the derivatives are those of the polynomial pieces (Polynomial.derivative, and HasDerivAt: the "
+    "glued real function is twice differentiable everywhere); "
     "and that absorbing the centering constraint gives exactly zero column means whenever Q2 is orthogonal to the constraint. "
     "The models are tied to the code by a differential correspondence on every run; quantiles, linear solves and QR enter as "
     "parameters whose contracts are checked numerically per case."
 )
 LEVEL_NOTE = (
     "Partial: numpy.nanquantile / solve_banded / solve / qr are parameters (contracts checked per case, not proved); float rounding "
-    "not modelled (1e-9 agreement); C1-continuity of the cubic regression spline (that B.F = D makes it THE interpolating spline) is "
-    "checked against scipy.interpolate.CubicSpline by the oracle, not proved."
+    "not modelled (1e-9 agreement), so the exact contract B.F = D of the interpolation theorems holds for the implementation's F only "
+    "up to the numerically checked residual; uniqueness of the natural/periodic interpolating spline is not proved (its defining "
+    "conditions are)."
 )
